@@ -369,6 +369,46 @@ theorem metadata_recovers (c : AuthCfg) (faults : Nat → Bool) (g : Grpc) (h : 
   | none => rw [hp] at hb; simp [hb]
   | some p => rw [hp] at hb; simp [hok, hb]
 
+/-! ### a provider class that cannot be loaded -/
+
+theorem metadata_unloadable (c : AuthCfg) (g : Grpc) (hp : noProvider c.providerName = false) (h : g.cache = none) :
+    g.metadata c (fun _ => true) = (none, { g with asked := g.asked + 1 }) := by
+  unfold Grpc.metadata provided
+  simp [h, hp]
+
+theorem step_unloadable (c : AuthCfg) (g : Grpc) (op : Op) (hp : noProvider c.providerName = false)
+    (hm : pollMetadataArg = some "self.grpc.metadata()" ∧ sendMetadataArg = some "self.grpc.metadata()")
+    (h : g.cache = none) :
+    (step c (fun _ => true) g op).1.metadata = none ∧ (step c (fun _ => true) g op).2.cache = none := by
+  have hu := metadata_unloadable c g hp h
+  cases op with
+  | poll ts hash res =>
+    simp only [step, hm.1, hu]
+    split
+    · exact ⟨rfl, h⟩
+    · split
+      · exact ⟨rfl, h⟩
+      · exact ⟨rfl, h⟩
+  | push s =>
+    simp only [step, hm.2, hu]
+    split
+    · exact ⟨rfl, h⟩
+    · exact ⟨rfl, h⟩
+
+theorem run_unloadable (c : AuthCfg) (hp : noProvider c.providerName = false)
+    (hm : pollMetadataArg = some "self.grpc.metadata()" ∧ sendMetadataArg = some "self.grpc.metadata()") :
+    ∀ (ops : List Op) (g : Grpc), g.cache = none → ∀ w ∈ run c (fun _ => true) g ops, w.metadata = none := by
+  intro ops
+  induction ops with
+  | nil => intro g _ w hw; cases hw
+  | cons op rest ih =>
+    intro g h w hw
+    have hs := step_unloadable c g op hp hm h
+    simp only [run, List.mem_cons] at hw
+    rcases hw with rfl | hw
+    · exact hs.1
+    · exact ih _ hs.2 w hw
+
 /-! ### threads -/
 
 theorem cstep_inv (c : AuthCfg) (s : Conc) (tid : Nat)
